@@ -111,8 +111,11 @@ def run(tier, seed):
     files = diffcommon.carrier_files(tier, 80 if tier == "quick" else 800, 80 if tier == "quick" else 0)
     # carriers with counters at their limit: 4 and 5 functions, 5 variables, misaligned declarations
     b = norm.Bounds(5, 5, 12, 2, 2, 1, 2, False)
-    for nf in (4, 5):
+    for nf in (4, 5, 14, 15):
         ids = ()
+        if nf > 10:
+            nf -= 10
+            ids = ("glob:sarr", "glob:marr", "empty", "proto:int", "empty")
         for i in range(nf):
             ids += ("fsig:int", "decl:charp", "decl:int", "empty", "s:assign", "s:return", "fend") + (("empty",) if i < nf - 1 else ())
         rp = norm.replay(".c", ids, b, "test.c", with_preamble=False)
